@@ -160,6 +160,9 @@ pub fn install_panic_hook() {
 
 /// The payload used by harness-side budget guards (asset call budget = hang detector).
 pub const BUDGET_PANIC: &str = "VERIF_BUDGET_EXHAUSTED";
+/// panic message of the simulated frame buffer when the emulator addresses a pixel outside the buffer it
+/// dimensioned itself (a real host would panic on its Vec or scribble over memory): the emulator's fault
+pub const FB_RANGE_PANIC: &str = "VERIF_FRAMEBUFFER_PIXEL_OUT_OF_RANGE";
 
 fn is_harness_path(file: &str) -> bool {
     file.contains("zxverif/src") || file.contains("zxref/src")
@@ -187,11 +190,14 @@ pub fn catch<T>(f: impl FnOnce() -> T) -> Result<T, PanicInfo> {
 }
 
 pub fn panic_site(pi: &PanicInfo) -> String {
+    if pi.msg.contains(FB_RANGE_PANIC) {
+        return "framebuffer_pixel_out_of_range".to_string();
+    }
     format!("{}:{}", short_path(&pi.file), pi.line)
 }
 
 pub fn panic_in_harness(pi: &PanicInfo) -> bool {
-    is_harness_path(&pi.file) && !pi.msg.contains(BUDGET_PANIC)
+    is_harness_path(&pi.file) && !pi.msg.contains(BUDGET_PANIC) && !pi.msg.contains(FB_RANGE_PANIC)
 }
 
 pub enum ExecOutcome {
@@ -219,6 +225,8 @@ pub fn exec_guarded(p: &dyn Property, sc: &Scenario, ctx: &mut RunCtx) -> ExecOu
                     &format!("entry={}", pi.msg.split('|').nth(1).unwrap_or("?")),
                     format!("asset call budget exhausted (loader does not terminate): {}", pi.msg),
                 ));
+            } else if pi.msg.contains(FB_RANGE_PANIC) {
+                fails.push(Fail::new(&format!("{}.panic", p.id()), "at=framebuffer_pixel_out_of_range", format!("the emulator addressed a pixel outside the frame buffer it dimensioned: {}", pi.msg)));
             } else if is_harness_path(&pi.file) {
                 return ExecOutcome::Harness(format!("harness panic at {}:{}: {}", pi.file, pi.line, pi.msg));
             } else {
